@@ -285,6 +285,22 @@ static OrcProgram *fixed_program(const std::string &which) {
   } else if (which == "addf") {
     p = orc_program_new_dss(4, 4, 4);
     orc_program_append_str(p, "addf", "d1", "s1", "s2");
+  } else if (which == "regpressure") {
+    // 8 sources, 8 parameters and 4 constants all live in one loop body: more vector
+    // registers than sse/avx have, so compilation ends in "register overflow" and the
+    // program must fall back (C06's register-exhaustion clause)
+    p = orc_program_new();
+    orc_program_add_destination(p, 2, "d1");
+    int t = orc_program_add_temporary(p, 2, "t1");
+    char nm[8];
+    for (int i = 0; i < 8; i++) { snprintf(nm, sizeof nm, "s%d", i + 1); orc_program_add_source(p, 2, nm); }
+    for (int i = 0; i < 8; i++) { snprintf(nm, sizeof nm, "p%d", i + 1); orc_program_add_parameter(p, 2, nm); }
+    for (int i = 0; i < 4; i++) { snprintf(nm, sizeof nm, "c%d", i + 1); orc_program_add_constant(p, 2, 3 + 5 * i, nm); }
+    orc_program_append_2(p, "addw", 0, t, ORC_VAR_S1, ORC_VAR_S2, 0);
+    for (int i = 2; i < 8; i++) orc_program_append_2(p, i % 2 ? "addw" : "subw", 0, t, t, ORC_VAR_S1 + i, 0);
+    for (int i = 0; i < 8; i++) orc_program_append_2(p, i % 2 ? "xorw" : "addw", 0, t, t, ORC_VAR_P1 + i, 0);
+    for (int i = 0; i < 4; i++) orc_program_append_2(p, i % 2 ? "orw" : "subw", 0, t, t, ORC_VAR_C1 + i, 0);
+    orc_program_append_2(p, "copyw", 0, ORC_VAR_D1, t, 0, 0);
   } else if (which == "accl") {
     p = orc_program_new_as(4, 4);
     orc_program_append_str(p, "accl", "a1", "s1", nullptr);
